@@ -124,8 +124,11 @@ def _judge(prog, sem, src, st, res, pe=False):
 
 
 def run(tier, seed, pid="C01"):
-    n = 6000 if tier == "thorough" else 600
     neg_cycles = pid == "C02"
+    if neg_cycles:
+        n = 30000 if tier == "thorough" else 4000
+    else:
+        n = 10000 if tier == "thorough" else 1500
     ps = progs.programs(seed * 7919 + (1 if neg_cycles else 0), n, neg_cycles=neg_cycles,
                         max_choices=12 if tier == "thorough" else 9)
     col = Collector("%s:inference-vs-possible-worlds" % pid,
